@@ -24,7 +24,9 @@ def showErr : SpinChain.Err → String
   | .unsupported => "err unsupported" | .index => "err index" | .key => "err key"
   | .shape => "err shape" | .noPulse => "err noPulse"
 
-def evQ (a : Ang) : Rat := (a.p8 : Rat) / 8
+/-- angles in units of π; the driver only accepts fixed angles, for which the valuation of the symbols is irrelevant
+(`Model/SpinChainSched.evQr`, the function the theorems of C06 are about) -/
+def evQ (a : Ang) : Rat := evQr (fun _ => 0) a
 
 /-- start time of every instruction: cumulative sums (no scheduling) or the scheduler model
 (`Model/SpinChainSched.lean`, the function the theorems of C06 are about) -/
